@@ -341,5 +341,7 @@ def r7_available_writers(ctx):
 
 from .sched import r_transfer_source  # noqa: E402
 
-RULES = [r1_purge_guard, r2_tracker_removal, r3_r4_flush, r_transfer_source, r6_fetch_queue, r7_available_writers,
+from .sched import r_no_downgrade  # noqa: E402
+
+RULES = [r_no_downgrade, r1_purge_guard, r2_tracker_removal, r3_r4_flush, r_transfer_source, r6_fetch_queue, r7_available_writers,
          r_last_output_order]
